@@ -190,7 +190,11 @@ _sim_open._simverif_seam = True
 
 STAGES = ['get_next_imf', 'interp_envelope', 'get_padded_extrema', 'sift', '_sift_with_noise',
           'get_next_imf_mask', 'get_mask_freqs', 'ensemble_sift', 'complete_ensemble_sift',
-          'mask_sift', 'sift_second_layer', 'mask_sift_second_layer']
+          'mask_sift', 'sift_second_layer', 'mask_sift_second_layer',
+          'sd_stop', 'rilling_stop', 'fixed_stop', '_energy_difference', '_find_extrema',
+          'compute_parabolic_extrema']
+LIGHT_STAGES = set(['sd_stop', 'rilling_stop', 'fixed_stop', '_energy_difference', '_find_extrema',
+                    'compute_parabolic_extrema'])     # recorded without array snapshots
 _stage_orig = {}
 _stage_sig = {}
 
@@ -223,8 +227,16 @@ def _wrap_stage(name, orig):
                'level': _console_level()}
         rec['bound'] = _bind(name, args, kwargs) if _stage_sig.get(name) is not None else None
         rec['id'] = len(w.stage_trace)
-        rec['x'] = args[0].copy() if args and isinstance(args[0], np.ndarray) else None
+        light = name in LIGHT_STAGES
+        rec['x'] = args[0].copy() if (not light and args and isinstance(args[0], np.ndarray)) else None
         w.stage_trace.append(rec)
+        if light:
+            rec['args'] = rec['kwargs'] = None
+            depth.append(rec['id'])
+            try:
+                return orig(*args, **kwargs)
+            finally:
+                depth.pop()
         w.log('stage', stage=name, task=w.cur_task,
               x=args[0] if args and isinstance(args[0], np.ndarray) else None)
         w.stage_entries += 1
@@ -246,6 +258,39 @@ def _wrap_stage(name, orig):
             depth.pop()
     stage._simverif_seam = True
     return stage
+
+
+class _ModProxy:
+    """Stands for a module alias inside emd.sift (np, interp): everything passes through, selected callables
+    are observed (which routine was called, with which options, underneath which stage entry)."""
+    _simverif_seam = True
+
+    def __init__(self, real, watched, label):
+        object.__setattr__(self, '_real', real)
+        object.__setattr__(self, '_label', label)
+        for name in watched:
+            object.__setattr__(self, name, self._watch(name, getattr(real, name)))
+
+    def _watch(self, name, fn):
+        label = self._label
+
+        @functools.wraps(fn)
+        def watched(*args, **kwargs):
+            w = simmp.CURRENT[0]
+            if w is not None and getattr(w, 'trace_on', True):
+                depth = w.stage_depth
+                rec = {'lib': label, 'fn': name, 'parent': depth[-1] if depth else None}
+                if name == 'pad':
+                    rec['len'] = len(args[0]) if args else None
+                    rec['pad_width'] = args[1] if len(args) > 1 else kwargs.get('pad_width')
+                    rec['mode'] = args[2] if len(args) > 2 else kwargs.get('mode', 'constant')
+                    rec['kwargs'] = {k: v for k, v in kwargs.items() if k not in ('mode', 'pad_width')}
+                w.lib_calls.append(rec)
+            return fn(*args, **kwargs)
+        return watched
+
+    def __getattr__(self, name):
+        return getattr(object.__getattribute__(self, '_real'), name)
 
 
 def _snap(out):
@@ -382,6 +427,11 @@ def install():
         if hasattr(S, alt):
             setattr(S, alt, simmp.SimExecutor)
     S.open = _sim_open
+    if getattr(S, 'np', None) is np:
+        S.np = _ModProxy(np, ['pad'], 'np')
+    import scipy.interpolate as _si
+    if getattr(S, 'interp', None) is _si:
+        S.interp = _ModProxy(_si, ['splrep', 'splev', 'PchipInterpolator', 'pchip'], 'interp')
     for name in STAGES:
         if hasattr(S, name):
             _stage_orig[name] = getattr(S, name)
@@ -450,6 +500,7 @@ def begin_run(w):
     install()
     simmp.CURRENT[0] = w
     w.stage_depth = []
+    w.lib_calls = []
     w.trace_on = True
     w.disk = SimDisk(w)
     w.stdout = _Sink(w)
